@@ -501,7 +501,7 @@ func init() {
 		"fmt.Errorf":              {pure: true, apply: (*fnTrans).mNewError},
 		"strings.HasPrefix":       {pure: true},
 		"strings.Contains":        {pure: true},
-		"strings.Index":           {pure: true},
+		"strings.Index":           {pure: true, apply: (*fnTrans).mStringsIndex},
 		"strings.TrimPrefix":      {pure: true},
 		"strings.ToLower":         {pure: true},
 		"strconv.Atoi":            {pure: true, apply: (*fnTrans).mAtoi},
@@ -1585,6 +1585,14 @@ func isprintDef() string {
 		}
 	}
 	return "(define-fun isprint ((b Int)) Bool (or " + strings.Join(ranges, " ") + "))\n"
+}
+
+// strings.Index(s, sub): trusted library fact -- -1, or a position at which sub fits into s.
+func (t *fnTrans) mStringsIndex(in ssa.Instruction, cc *ssa.CallCommon, res ssa.Value) bool {
+	x, sub := t.val(cc.Args[0]), t.val(cc.Args[1])
+	r := t.freshResults(res, nameOf(res, "index"))
+	t.assume("(or (= " + r[0] + " (- 1)) (and (<= 0 " + r[0] + ") (<= (+ " + r[0] + " (str_len " + sub + ")) (str_len " + x + "))))")
+	return true
 }
 
 func (t *fnTrans) mIsPrint(in ssa.Instruction, cc *ssa.CallCommon, res ssa.Value) bool {
